@@ -1,4 +1,4 @@
-# C11 - extraction never writes outside the chosen output directory: the name -> relative path kernel of the CLI.
+# C11 - extraction never writes outside the chosen output directory: the containment kernel of the CLI.
 # Executed inside catalogue.py's namespace.
 CRATES["cli"] = {
     "dir": "warcraft-rs",
@@ -10,25 +10,22 @@ CRATES["cli"] = {
 OUTSIDE["C11"] = [
     "the process-level clause itself: which files `warcraft-rs mpq extract` creates (fs::create_dir_all / fs::write, symlinks already "
     "present under the output directory, case-insensitive or Unicode-normalising file systems, Windows reserved device names and "
-    "trailing dots/spaces) - a bounded model checker has no file system; decided is the pure kernel every output path goes through",
+    "trailing dots/spaces) - a bounded model checker has no file system; decided is the pure predicate every entry name has to pass",
+    "extraction_relative_path itself (split on the two separators, drop empty and '.' pieces, collect into a PathBuf / take the last): "
+    "str::split + PathBuf::push over symbolic-length pieces did not finish in CBMC even for 2-byte names (8 GB, > 5 min); that its result has "
+    "normal components only follows from the decided predicate (no '..' piece, no ':') and the filter it applies (no empty, no '.' piece) - read, not executed",
     "that extract_files_with_options routes every name through extraction_relative_path (two call sites, read off the source; the harness "
-    "cannot see a call site that bypasses the helper) and that Path::join of a relative path of normal components stays beneath its base "
-    "(std semantics, checked by std's own component parser for 3-byte names)",
-    "entry names longer than 6 bytes (8 in the thorough tier); output directories (the kernel does not depend on them)",
+    "cannot see a call site that bypasses the helper)",
+    "entry names longer than 12 bytes (24 in the thorough tier)",
     "other extraction paths of the workspace: wow_mpq::rebuild (temp dirs), examples, storm-ffi SFileExtractFile (caller-supplied target path)",
 ]
 
 _X = "verif_kani_extract_path"
-_xf = ["commands::mpq::extraction_relative_path"]
-_xin = "entry name: EVERY valid UTF-8 byte string of exactly N bytes (symbolic); mode (preserve paths / flat) concrete per harness"
-H("C11", "cli", _X, "quick", "C11.a containment: a returned path is relative, non-empty and made of normal components only (no '..', '.', root, "
-  "backslash, ':'), hence output_dir.join(path) stays beneath output_dir; C11.b function: it is the name's components joined by '/' "
-  "(last component only without --preserve-paths); harmless names are not refused",
-  ["c11_path_preserve_n%d" % n for n in (1, 2, 3, 4, 5)] + ["c11_path_flat_n%d" % n for n in (1, 2, 3, 4, 5)],
-  _xf, _xin, "N in 1..=5 bytes", assumes=["bytes form valid UTF-8 (a &str cannot carry anything else)"], stubs=[FMT], timeout=600)
-H("C11", "cli", _X, "thorough", "C11.a/b, 6-byte names (e.g. a\\..\\b, ..\\..\\, C:\\a/.)",
-  ["c11_path_preserve_n6", "c11_path_flat_n6"], _xf, _xin, "N = 6 bytes", assumes=["bytes form valid UTF-8"], stubs=[FMT], timeout=2400)
-H("C11", "cli", _X, "quick", "C11.a std's own path parser agrees: every component of a returned path is Component::Normal, the path is relative",
-  ["c11_path_components_normal_n3"], _xf + ["std::path::Path::components (oracle)"],
-  "entry name: every valid UTF-8 string of 3 bytes, mode symbolic", "N = 3 bytes", stubs=[FMT], timeout=900)
+_xf = ["commands::mpq::entry_name_is_contained (the rejection kernel of extraction_relative_path)"]
+H("C11", "cli", _X, "quick", "C11.a an entry name is accepted exactly when none of its components (pieces between '\\\\' and '/') is '..' or contains ':' and a component other than '.' exists - "
+  "so no accepted name can make the joined output path leave the output directory, and harmless names are not refused",
+  ["c11_contained_n%d" % n for n in (1, 2, 3, 4, 5, 6, 7, 8, 10, 12)],
+  _xf, "entry name: EVERY byte string of exactly N bytes (symbolic)", "N in 1..=8, 10, 12 bytes (the empty name is refused: concrete)", stubs=[FMT], timeout=600)
+H("C11", "cli", _X, "thorough", "C11.a 16-, 20- and 24-byte names", ["c11_contained_n16", "c11_contained_n20", "c11_contained_n24"], _xf,
+  "entry name: every byte string of exactly N bytes", "N in {16, 20, 24}", stubs=[FMT], timeout=2400)
 H("C11", "cli", _X, "quick", "canary", ["c11_canary"], _xf, "vacuity twin", "-", expect="canary", stubs=[FMT])
